@@ -581,6 +581,10 @@ def term(ctx):
             elif idiom == 'consume-until-exception':
                 what = ent.get('read') or ent.get('advance')
                 nodes = [n for n in g.nodes if head in n.loops and any(what in norm(e) for e in cfgmod.node_exprs(n))]
+                term_ = ent.get('or_terminator')
+                if term_:
+                    # an alternative branch that does not consume but hands the loop test a value that ends it (reason in the table)
+                    nodes += [n for n in g.nodes if head in n.loops and n.kind == 'stmt' and n.stmt is not None and norm(n.stmt) == term_]
                 probs = [] if nodes and _cycle_must_pass(ctx, fi, g, head, nodes) else ['a cycle does not pass `%s`' % what]
             elif idiom == 'not-image-driven':
                 probs = _check_not_image_driven(ctx, R, fi)
